@@ -174,7 +174,7 @@ open VlsModel.Tracker in
 def trackerStr (t : Tracker) : String :=
   let hs := joinOr (t.headers.map fun h => s!"{h.hdr.hash}/{h.fh}") ","
   let ls := joinOr (t.listeners.map fun (k, l) => s!"{k}:" ++ listenerStr l) " | "
-  s!"h={t.height} tip={t.tip.hdr.hash}/{t.tip.fh} n={t.headers.length} hdrs={hs} dec={optNat t.decoding} L {ls}"
+  s!"h={t.height} tip={t.tip.hdr.hash}/{t.tip.fh} n={t.headers.length} hdrs={hs} L {ls}"
 
 structure TrSt where
   t : Tracker.Tracker
@@ -193,19 +193,19 @@ def trStep (m : TrSt) (toks : List String) : TrSt × String :=
     | some net, some h, some tip, some deep, some tr =>
       let t : Tracker := { headers := [], tip, height := h, network := net, listeners := [], decoding := none,
                            ldec := false, trusted := tr, allowDeep := deep != 0 }
-      ({ t, dead := false }, "ok " ++ trackerStr t)
+      ({ t, dead := false }, "ok")
     | _, _, _, _, _ => (m, "bad-op")
   | "window" :: hs =>
     -- pre-populate the remembered headers (ChainTracker::restore), most recent first
     match hs.mapM headers? with
-    | some hs => let t := { m.t with headers := hs }; ({ m with t }, "ok " ++ trackerStr t)
+    | some hs => let t := { m.t with headers := hs }; ({ m with t }, "ok")
     | none => (m, "bad-op")
   | ["listener", k, h, t, v, i] =>
     match nat? k, nat? h, nat? t, nat? v, outpoints? i with
     | some k, some h, some t, some v, some i =>
       let l : Listener := { st := State.init h t v i, slot := { txidWatches := [t], watches := i, seen := [] } }
       let tr := { m.t with listeners := Prune.insert k l m.t.listeners }
-      ({ m with t := tr }, "ok " ++ trackerStr tr)
+      ({ m with t := tr }, "ok")
     | _, _, _, _, _ => (m, "bad-op")
   | ["trusted", tr] =>
     match natListOf? tr "," with
